@@ -336,7 +336,81 @@ def enumerate_cases(tier):
     names = getattr(e.U, "__all__", [])
     for i in range(len(names)):
         cases.append({"t": "name", "i": i})
+    # quantities stay what they were constructed as while the rest of the library uses them
+    for disp in ("s", "min", "h", "ms"):
+        for units in (["h", "min", "s", "ms"], ["min", "min", "h", "day"], ["s", "h", "min", "wk"]):
+            cases.append({"t": "held", "display": disp, "units": units})
     return cases
+
+
+def _run_held(case, out):
+    """Durations held by the user are handed to a Duration simulator (replication times, absolute event times,
+    delays, run bounds), to statistics and to an input parameter; afterwards each still reports the unit, display
+    value, SI value and text it was constructed with."""
+    import threading
+    from pydsol.core.units import Duration
+    from pydsol.core.simulator import DEVSSimulatorDuration
+    from pydsol.core.experiment import SingleReplication
+    from pydsol.core.model import DSOLModel
+    from pydsol.core.statistics import Tally
+    from pydsol.core.parameters import InputParameterQuantity
+    u = case["units"]
+    f = {"ms": 1e-3, "s": 1.0, "min": 60.0, "h": 3600.0, "day": 86400.0, "wk": 604800.0}
+    held = {"start": Duration(60.0 / f[u[0]], u[0]), "warmup": Duration(30.0 / f[u[1]], u[1]),
+            "length": Duration(3600.0 / f[u[2]], u[2]), "abs1": Duration(180.0 / f[u[3]], u[3]),
+            "abs2": Duration(360.0 / f[u[0]], u[0]), "delay": Duration(90.0 / f[u[1]], u[1]),
+            "bound": Duration(300.0 / f[u[2]], u[2]), "obs": Duration(12.0 / f[u[3]], u[3])}
+    snap = {k: (q.unit, q.displayvalue, float.__float__(q), str(q), repr(q)) for k, q in held.items()}
+    sim = DEVSSimulatorDuration("held-%s" % case["display"], case["display"])
+    seen = []
+
+    class M(DSOLModel):
+        def construct_model(self):
+            self.simulator.schedule_event_abs(held["abs1"], self, "h", k=1)
+            self.simulator.schedule_event_abs(held["abs2"], self, "h", k=2)
+            self.simulator.schedule_event_rel(held["delay"], self, "h", k=3)
+
+        def h(self, k):
+            seen.append((k, float.__float__(self.simulator.simulator_time)))
+    try:
+        model = M(sim)
+        sim.initialize(model, SingleReplication("rep", held["start"], held["warmup"], held["length"]))
+        sim.run_up_to(held["bound"])
+        _wait_quiet(sim)
+        sim.start()
+        _wait_quiet(sim)
+        t = Tally("t")
+        t.register(held["obs"])
+        p = InputParameterQuantity("q", "q", Duration(1.0, "s"), 1.0)
+        p.set_value(held["obs"])
+    except Exception as ex:
+        out.fail("held-quantities:library-raises:" + type(ex).__name__, repr(ex))
+        return
+    finally:
+        try:
+            sim.cleanup()
+        except Exception:
+            pass
+    want_t = {1: 180.0, 2: 360.0, 3: 150.0}      # (value/factor*factor may differ from the round number by an ulp)
+    if sorted(k for k, _ in seen) != [1, 2, 3] or any(abs(t - want_t[k]) > 1e-9 for k, t in seen if k in want_t):
+        out.fail("held-quantities:events", seen)
+    for k, q in held.items():
+        now = (q.unit, q.displayvalue, float.__float__(q), str(q), repr(q))
+        if now != snap[k]:
+            out.fail("held-quantity-changed:" + k, {"constructed": snap[k][:4], "now": now[:4],
+                                                    "display_unit_of_simulator": case["display"]})
+            return
+    out.nontrivial = any(x != case["display"] for x in u)
+    out.label("held-quantities-through-simulator")
+
+
+def _wait_quiet(sim):
+    import time as _t
+    end = _t.monotonic() + 10.0
+    while sim.run_state.name in ("STARTING", "STARTED", "STOPPING"):
+        if _t.monotonic() > end:
+            raise Inconclusive("simulator did not come to rest")
+        _t.sleep(0.001)
 
 
 # ---------------------------------------------------------------- interpreter
@@ -635,6 +709,8 @@ def run_case(case):
         _run_unit(case, out)
     elif t == "name":
         _run_name(case, out)
+    elif t == "held":
+        _run_held(case, out)
     else:
         raise Inconclusive("unknown case shape")
     return out
